@@ -11,6 +11,9 @@ CLAIMED = {
  "C03": ("exploration", "property-based differential testing (Hypothesis): typed LPC program grammar vs independent reference evaluator, plus metamorphic sibling spellings",
          "Programs from a typed expression/statement grammar over the language core are rendered in up to 11 equivalent spellings (run-time args vs literals vs macros, op= vs expanded, ++ vs +1, switch vs if-chain, for vs while, local vs global, typed vs mixed, direct vs function-pointer vs call_other calls); all spellings run in one forked driver and must agree with each other and with a Python reference evaluator written from the manual. Sampled, bounded program size.",
          "Reference evaluator is trusted for the core it covers; computations it leaves undefined (INT64_MIN/-1, shift counts outside 0..63, negative range indexes, s[strlen(s)], sign of zero, resource-limit hits, compile-time rejection of constant division/index) are discarded and counted; differing error classes between two possible error sites are accepted (evaluation order)."),
+ "C04": ("exploration", "property-based testing (Hypothesis) of program shapes x driver configurations with an instruction-counting / size-sampling dispatch hook as monitor",
+         "56 looping / recursing / allocating program shapes x 0-3 nested catches x generated driver configurations (fresh driver per configuration). The H1 hook counts dispatched instructions (an evaluation passing 2 x MaxEvaluationCost + 200 is stopped and reported), samples control- and value-stack depth and the sizes of the top stack values at every instruction; never-ending shapes must return to the harness as an uncatchable limit error; memory errors while a limit should have struck are violations.",
+         "Work inside one efun call is not counted by evaluation cost; sizes are sampled on the top three stack slots and the returned value; efuns whose results ignore MaxStringLength are listed as known findings."),
 }
 NA_REASON = "check not yet built in this session (machinery under construction; see DESIGN.md section 4 for the planned check)"
 
